@@ -13,3 +13,4 @@ import SpdxVerif.Props.C12Grammar
 #print axioms Spdx.C12.exception_only_after_with_grammar
 #print axioms Spdx.C12.exception_word_is_exception_token
 #print axioms Spdx.C12.D_head_not_exc
+#print axioms Spdx.C12.valid_exception_only_after_with
